@@ -41,6 +41,7 @@ structure Thread where
   cancelFn : Option Ctx := none      -- ls.ctxCancelFn (cancels exactly this context)
   dead : Bool := false               -- ls.Dead
   wrapped : Bool := false            -- ls.wrapped
+  shared : Bool := false             -- ls.ctxShared: NewThread derived a child context from ls.ctx
 deriving DecidableEq, Repr, Inhabited
 
 /-- state.go `SetContext`. -/
@@ -96,11 +97,14 @@ def Sys.loopOf (sys : Sys) (th : Nat) : Loop := (sys.thread th).loop
 def Sys.ctxOf (sys : Sys) (th : Nat) : Option Ctx := (sys.thread th).ctx
 def Sys.setThread (sys : Sys) (th : Nat) (t : Thread) : Sys := { sys with threads := sys.threads.set th t }
 
-/-- state.go `LState.kill`: mark dead, cancel the child context. -/
+/-- state.go `LState.kill`: mark dead; release (cancel) the thread's own child context unless threads created
+    from it still live under it (`ctxShared`, fix C11-coroutine-outlives-creator). -/
 def killTh (sys : Sys) (th : Nat) : Sys :=
   let t := sys.thread th
   { threads := sys.threads.set th { t with dead := true },
-    cancelled := match t.cancelFn with | some c => c :: sys.cancelled | none => sys.cancelled }
+    cancelled := match t.cancelFn with
+      | some c => if t.shared then sys.cancelled else c :: sys.cancelled
+      | none => sys.cancelled }
 
 /-- vm.go: one loop iteration up to the decision "dispatch or raise". -/
 inductive PollRes where
@@ -149,7 +153,8 @@ def settle (sys : Sys) : Mode → List Frame → Settled
       { sys, stack := .act th (sys.loopOf th) false :: .handling th :: r }
   | .raising e, .handling _ :: r => settle sys (.retG (some e)) r
   | .raising e, .trun th false :: r => (settle (killTh sys th) (.retG (some e)) r).pre (.killed th)
-  | .raising e, .trun _ true :: r => settle sys (.raising e) r
+  -- wrapped coroutine (fix c3249b5): the thread is killed, then the error is re-raised in the resumer
+  | .raising e, .trun th true :: r => (settle (killTh sys th) (.raising e) r).pre (.killed th)
   | .retG v, [] => { sys, stack := [], result := some v, events := [.returned v] }
   | .retG _, .act th l false :: r => { sys, stack := .act th l false :: r }
   | .retG _, .act _ _ true :: r => settle sys .retN r
@@ -229,7 +234,9 @@ def applyHost (s : St) (th : Nat) : HostOp → St
   | .removeContext => { s with sys := s.sys.setThread th (removeContext (s.sys.thread th)) }
   | .cancel c => { s with sys := { s.sys with cancelled := c :: s.sys.cancelled } }
   | .newThread w =>
-      { s with sys := { s.sys with threads := s.sys.threads ++ [newThread (s.sys.thread th) s.sys.threads.length w] } }
+      let creator := s.sys.thread th
+      let creator' : Thread := if creator.ctx.isSome then { creator with shared := true } else creator
+      { s with sys := { s.sys with threads := s.sys.threads.set th creator' ++ [newThread creator s.sys.threads.length w] } }
   | .block _ ready =>
       if blockingReturns (s.sys.ctxOf th) s.sys.cancelled ready then s
       else { s with blockedOn := some (th, s.sys.ctxOf th) }
